@@ -133,6 +133,18 @@ def m_checked(interp, path, args, ret_ty, callee):
     return option(ret_ty or "Option<%s>" % ty, ok, IntV(r, ty))
 
 
+@model(r"<impl (BInt<\d+>|BUint<\d+>|[iu](8|16|32|64|128|size))>::checked_(div|rem)_euclid$",
+       "euclidean quotient / remainder (remainder >= 0); None for divisor 0 or a quotient outside the range (MIN / -1)")
+def m_checked_euclid(interp, path, args, ret_ty, callee):
+    ty = int_ty_of_path(callee)
+    x, y = args[0].term, args[1].term
+    # z3's Int div / mod are the Euclidean ones for either sign of the divisor
+    r = (x / y) if "checked_div_euclid" in callee else (x % y)
+    ok = z3.And(y != 0, in_range(r, ty))
+    r = z3.If(y == 0, 0, r)
+    return option(ret_ty or "Option<%s>" % ty, ok, IntV(r, ty))
+
+
 @model(r"<impl (BInt<\d+>|i(8|16|32|64|128|size))>::checked_(neg|abs)$", "None only for MIN")
 def m_checked_neg(interp, path, args, ret_ty, callee):
     ty = int_ty_of_path(callee)
